@@ -45,6 +45,8 @@ type InstrumentReport struct {
 	Files        int         `json:"files"`
 	Sites        []Site      `json:"sites"`
 	CritBrackets int         `json:"crit_brackets"`
+	ExprWrapping bool        `json:"expr_wrapping"`
+	AtomicWraps  int         `json:"atomic_wraps"`
 	Uncontrolled []Construct `json:"uncontrolled_constructs"`
 }
 
@@ -114,12 +116,17 @@ func readModulePath(dir string) (string, error) {
 // instrumentTree rewrites every non-test .go file under dir (a scratch copy)
 // in place, inserting yield points and no-preempt brackets, and installs the
 // verifsim package taken from verifsimSrc.
-func instrumentTree(dir, verifsimSrc string) (*InstrumentReport, error) {
+func instrumentTree(dir, verifsimSrc string, wrapExpr bool) (*InstrumentReport, error) {
 	mod, err := readModulePath(dir)
 	if err != nil {
 		return nil, err
 	}
-	rep := &InstrumentReport{Module: mod}
+	rep := &InstrumentReport{Module: mod, ExprWrapping: wrapExpr}
+	if wrapExpr {
+		if err := bumpGoDirective(filepath.Join(dir, "go.mod")); err != nil {
+			return nil, err
+		}
+	}
 	var files []string
 	err = filepath.Walk(dir, func(p string, info os.FileInfo, err error) error {
 		if err != nil {
@@ -182,6 +189,21 @@ func instrumentTree(dir, verifsimSrc string) (*InstrumentReport, error) {
 		}
 		var fnStack []string
 		bodyBlocks := map[*ast.BlockStmt]bool{}
+		parents := map[ast.Node]ast.Node{}
+		if wrapExpr {
+			var st []ast.Node
+			ast.Inspect(f, func(n ast.Node) bool {
+				if n == nil {
+					st = st[:len(st)-1]
+					return true
+				}
+				if len(st) > 0 {
+					parents[n] = st[len(st)-1]
+				}
+				st = append(st, n)
+				return true
+			})
+		}
 		curFn := func() string {
 			if len(fnStack) == 0 {
 				return ""
@@ -298,6 +320,16 @@ func instrumentTree(dir, verifsimSrc string) (*InstrumentReport, error) {
 					unc(x.Pos(), "rand."+x.Sel.Name)
 				}
 			case *ast.CallExpr:
+				if wrapExpr && isAtomicValueCall(x) && singleValueContext(x, parents) {
+					// a yield point right after the atomic operation, inside
+					// the expression: verifsim.After(site, <call>)
+					id := next
+					next++
+					rep.Sites = append(rep.Sites, Site{ID: id, File: rel, Line: fset.Position(x.Pos()).Line, Kind: "atomic", Func: curFn()})
+					add(x.Pos(), fmt.Sprintf("verifsim.After(%d,", id))
+					add(x.End(), ")")
+					rep.AtomicWraps++
+				}
 				if sel, ok := x.Fun.(*ast.SelectorExpr); ok {
 					if id, ok := sel.X.(*ast.Ident); ok && id.Name == "time" {
 						switch sel.Sel.Name {
@@ -365,7 +397,100 @@ func instrumentTree(dir, verifsimSrc string) (*InstrumentReport, error) {
 			return nil, err
 		}
 	}
+	if wrapExpr {
+		if err := os.WriteFile(filepath.Join(vdst, "after.go"), []byte(afterSrc), 0o644); err != nil {
+			return nil, err
+		}
+	}
 	return rep, nil
+}
+
+const afterSrc = `package verifsim
+
+// After is the identity on v with a yield point: generated code wraps atomic
+// operations that occur inside larger expressions, so that the scheduler can
+// switch tasks between two atomic operations of one statement.
+func After[T any](site int, v T) T {
+	Yield(site)
+	return v
+}
+`
+
+// bumpGoDirective raises the scratch copy's language version to 1.18 if it is
+// lower (verifsim.After is generic). No construct valid under an older version
+// changes meaning under 1.18.
+func bumpGoDirective(gomod string) error {
+	b, err := os.ReadFile(gomod)
+	if err != nil {
+		return err
+	}
+	lines := strings.Split(string(b), "\n")
+	found := false
+	for i, ln := range lines {
+		f := strings.Fields(ln)
+		if len(f) == 2 && f[0] == "go" {
+			found = true
+			var maj, min int
+			fmt.Sscanf(f[1], "%d.%d", &maj, &min)
+			if maj == 1 && min < 18 {
+				lines[i] = "go 1.18"
+			}
+		}
+	}
+	if !found {
+		lines = append(lines, "go 1.18")
+	}
+	return os.WriteFile(gomod, []byte(strings.Join(lines, "\n")), 0o644)
+}
+
+// isAtomicValueCall recognises, syntactically, atomic operations that yield a
+// single value: sync/atomic functions (Load*, Add*, Swap*, CompareAndSwap*,
+// And*, Or*) and the method forms x.Load(), x.Swap(v), x.Add(d),
+// x.CompareAndSwap(o, n). A look-alike method of another type is wrapped too;
+// that is harmless when it returns one value and breaks the build otherwise,
+// in which case simctl falls back to instrumentation without wrapping.
+func isAtomicValueCall(c *ast.CallExpr) bool {
+	sel, ok := c.Fun.(*ast.SelectorExpr)
+	if !ok {
+		return false
+	}
+	name := sel.Sel.Name
+	if id, ok := sel.X.(*ast.Ident); ok && id.Name == "atomic" {
+		for _, p := range []string{"Load", "Add", "Swap", "CompareAndSwap", "And", "Or"} {
+			if strings.HasPrefix(name, p) {
+				return true
+			}
+		}
+		return false
+	}
+	switch {
+	case name == "Load" && len(c.Args) == 0:
+		return true
+	case name == "Swap" && len(c.Args) == 1:
+		return true
+	case name == "Add" && len(c.Args) == 1:
+		return true
+	case name == "CompareAndSwap" && len(c.Args) == 2:
+		return true
+	}
+	return false
+}
+
+// singleValueContext: the call's value is used, and used as one value.
+func singleValueContext(c *ast.CallExpr, parents map[ast.Node]ast.Node) bool {
+	switch p := parents[c].(type) {
+	case nil, *ast.ExprStmt, *ast.GoStmt, *ast.DeferStmt:
+		return false
+	case *ast.AssignStmt:
+		return len(p.Lhs) == len(p.Rhs)
+	case *ast.ValueSpec:
+		return len(p.Names) == len(p.Values)
+	case *ast.ReturnStmt:
+		return true
+	case *ast.CallExpr:
+		return p.Fun != c && (len(p.Args) > 1 || len(p.Args) == 1)
+	}
+	return true
 }
 
 func isGenerated(f *ast.File) bool { return false }
